@@ -1328,6 +1328,28 @@ impl Sim {
                     }
                 }
             }
+            "fail_storm" => {
+                // pseudo operation: n failing calls in a row on this thread, none of whose
+                // messages is fetched (the next ordinary failing call of the history sets the
+                // message the model expects)
+                let n = n(0).min(2_000_000);
+                self.calls += 1;
+                self.log(n);
+                self.fail(t);
+                if exec {
+                    for i in 0..n {
+                        unsafe {
+                            if i % 2 == 0 {
+                                let r = haystack_value_make_str(std::ptr::null());
+                                debug_assert!(r.is_none());
+                            } else {
+                                let r = haystack_value_from_zinc_string(b"@@ ??\0".as_ptr() as *const c_char);
+                                debug_assert!(r.is_none());
+                            }
+                        }
+                    }
+                }
+            }
             "borrow_read" => {
                 // pseudo operation: the caller dereferences a borrowed entry pointer while its
                 // container is alive and unmodified
